@@ -2,7 +2,7 @@ SPECIFICATION Spec
 CONSTANTS
   RecordHist = FALSE
   FixF4 = FALSE
-  FixF36 = FALSE
+  FixF36 = TRUE
   Users = {"u1", "u2", "u3"}
   Consumers = {"u3"}
   Actors = {"u3"}
